@@ -1,6 +1,7 @@
 package h
 
 import (
+	"github.com/truora/minidyn/interpreter"
 	"context"
 	"errors"
 	"sort"
@@ -434,3 +435,9 @@ func (b *V2) Fail(c, mode string) *Resp {
 		return NewResp()
 	})
 }
+
+// Native returns the client's native interpreter (registrations go through it, as in the library's own tests).
+func (b *V2) Native(c string) *interpreter.Native { return b.cs[c].GetNativeInterpreter() }
+
+// ActivateNative switches the client to the native interpreter.
+func (b *V2) ActivateNative(c string) { b.cs[c].ActivateNativeInterpreter() }
